@@ -1,6 +1,7 @@
 CONSTANTS
   Files <- F12
   NewFile = "f3"
+  SubFile = "g1"
   TempT = "tt"
   Keys <- K13
   Vals <- V5
